@@ -56,7 +56,7 @@ NodeStep(name, x) ==
   /\ act' = [name |-> name]
   /\ UNCHANGED <<prs, nmsg, stopped, crashed>>
 NodeStart     == Alive /\ nd.step = "newheight" /\ NodeStep("NodeStart", StartHeight(nd))
-NodeNextRound == Alive /\ nd.step = "later" /\ nd.r < 1 /\ NodeStep("NodeNextRound", NextRound(nd))
+NodeNextRound == Alive /\ nd.step = "later" /\ nd.r < 2 /\ NodeStep("NodeNextRound", NextRound(nd))
 NodeCommit    == Alive /\ nd.step = "later" /\ NodeStep("NodeCommit", Commit(nd))
 
 GNext ==
